@@ -1573,8 +1573,9 @@ func (b *builder) switchStmt(fn *Function, s *ast.SwitchStmt, label *lblock) {
 		b.stmt(fn, s.Init)
 	}
 
-	entry := fn.currentBlock
 	tag := b.expr(fn, s.Tag)
+	// Evaluating the tag may have created new blocks (a && b).
+	entry := fn.currentBlock
 
 	heads := make([]*BasicBlock, 0, len(s.Body.List))
 	bodies := make([]*BasicBlock, len(s.Body.List))
